@@ -3,7 +3,8 @@
    A header is the list of its field values in layout order ("view"); wf_X says each
    field lies within its bit width / enumeration; enc_X / dec_X are built from the
    layout tables (Model/Wire.v) by the generic big-endian packer (Base/Bits.v). *)
-From FlexVerif Require Import Base.Prelude Base.Bits Base.BitsFacts Model.Lifetime Model.Wire Proofs.WireProofs.
+From FlexVerif Require Import Base.Prelude Base.Bits Base.BitsFacts Model.Lifetime Model.Wire Proofs.WireProofs
+  Model.WireCodePoints Gen.C02Consts Proofs.WireCodePointsProofs.
 
 (* -- the generic codec: for ANY layout table whose widths add up to whole octets -- *)
 Theorem C02_generic_decode_encode : forall ws vs rest,
@@ -210,3 +211,13 @@ Example C02_example :
   wf_area [-900000000; 1800000000 - 1; 65535; 1; 359; 0] = true /\
   enc_basic [1; 1; 0; 60; 1; 10] = [17; 0; 241; 10].
 Proof. vm_compute. repeat split. Qed.
+
+(* -- the code points of the implementation's enumerations (regenerated from the source on every run) are those of
+      EN 302 636-4-1: encoder and decoder of the stack agreeing with each other is not enough -- *)
+Theorem C02_code_points_match_the_standard :
+  enum_CommonNH = spec_CommonNH /\ enum_HeaderType = spec_HeaderType /\ enum_GeoAnycastHST = spec_GeoAnycastHST /\
+  enum_GeoBroadcastHST = spec_GeoBroadcastHST /\ enum_TopoBroadcastHST = spec_TopoBroadcastHST /\
+  enum_LocationServiceHST = spec_LocationServiceHST /\ enum_HeaderSubType = spec_HeaderSubType /\
+  enum_BasicNH = spec_BasicNH /\ enum_ST = spec_ST /\ enum_M = spec_M.
+Proof. exact code_points_match. Qed.
+Print Assumptions C02_code_points_match_the_standard.
